@@ -353,7 +353,27 @@ func (in *Inst) instr(instr ssa.Instruction, g *Term, b *ssa.BasicBlock) {
 		ev := in.emit(&Event{Kind: "lookup", Guard: g, Instr: t, Args: []*Term{u(t.X), u(t.Index)}, Res: sy})
 		sy.Ev = ev
 		in.vals[t] = S.SymTerm(sy)
-	case *ssa.Range, *ssa.Next, *ssa.Select, *ssa.TypeAssert, *ssa.SliceToArrayPointer, *ssa.MultiConvert:
+	case *ssa.TypeAssert:
+		// a type test on a value boxed into an interface of this module: decided per dynamic type
+		if r := in.typeAssertBoxed(t, u(t.X)); r != nil {
+			in.vals[t] = r
+			return
+		}
+		{
+			// otherwise opaque, exactly as before
+			v := instr.(ssa.Value)
+			sy := in.newSym(SRes, "typeassert", tyClass(v.Type()))
+			var args []*Term
+			for _, op := range instr.Operands(nil) {
+				if *op != nil {
+					args = append(args, u(*op))
+				}
+			}
+			ev := in.emit(&Event{Kind: "typeassert", Guard: g, Instr: instr, Args: args, Res: sy})
+			sy.Ev = ev
+			in.vals[v] = S.SymTerm(sy)
+		}
+	case *ssa.Range, *ssa.Next, *ssa.Select, *ssa.SliceToArrayPointer, *ssa.MultiConvert:
 		v := instr.(ssa.Value)
 		sy := in.newSym(SRes, strings.ToLower(fmt.Sprintf("%T", instr)[5:]), tyClass(v.Type()))
 		var args []*Term
@@ -842,6 +862,60 @@ func (in *Inst) call(v ssa.Value, c *ssa.CallCommon, kind string, g *Term, b *ss
 		}
 	}
 	return r
+}
+
+// typeAssertBoxed: x.(T) / x.(T), ok on a selection of boxes "iface:<D>"(v): v where D is T, the zero value (and false)
+// elsewhere. Only the comma-ok form, or the plain form when every dynamic type is T (no panic path to model).
+func (in *Inst) typeAssertBoxed(t *ssa.TypeAssert, x *Term) *Term {
+	S := in.X.S
+	if _, isIface := t.AssertedType.Underlying().(*types.Interface); isIface {
+		return nil
+	}
+	type leaf struct{ cond, t *Term }
+	var leaves []leaf
+	ok := true
+	var flat func(t, cond *Term)
+	flat = func(u, cond *Term) {
+		if !ok || len(leaves) > 4 {
+			ok = false
+			return
+		}
+		if u.Op == "ite" {
+			flat(u.Args[1], S.And(cond, u.Args[0]))
+			flat(u.Args[2], S.And(cond, S.Not(u.Args[0])))
+			return
+		}
+		if !strings.HasPrefix(u.Op, "iface:") || in.X.ifaceTypes[u.Op] == nil {
+			ok = false
+			return
+		}
+		leaves = append(leaves, leaf{cond, u})
+	}
+	flat(x, S.True)
+	if !ok || len(leaves) == 0 {
+		return nil
+	}
+	zero := zeroOf(S, t.AssertedType)
+	var vc, oc []muxCase
+	all := true
+	for _, lf := range leaves {
+		if types.Identical(in.X.ifaceTypes[lf.t.Op], t.AssertedType) {
+			vc = append(vc, muxCase{lf.cond, lf.t.Args[0]})
+			oc = append(oc, muxCase{lf.cond, S.True})
+		} else {
+			all = false
+			vc = append(vc, muxCase{lf.cond, zero})
+			oc = append(oc, muxCase{lf.cond, S.False})
+		}
+	}
+	val := S.Mux(vc, tyClass(t.AssertedType))
+	if t.CommaOk {
+		return S.mkOp("tuple", TTuple, val, S.Mux(oc, TBool))
+	}
+	if !all {
+		return nil
+	}
+	return val
 }
 
 // devirtualize resolves a method call on an interface value whose dynamic type is known on every path (a selection
